@@ -813,15 +813,31 @@ Proof.
   - cbn; lra.
 Qed.
 
-(* a one-qubit batch of two all-Z rows of a state with psi = (1, 1), Z = 2: every sample_ok hypothesis holds *)
-Example nll_hyps_satisfiable :
-  let psi := fun _ : bits => ((1, 0) : Cx) in
-  let st := PureTab psi in let pr := fun _ : bits => 1 in
-  forall bs, In bs [([LZ], [false]); ([LZ], [true])] -> sample_ok [] st pr 2 bs.
+(* a one-qubit MIXED batch (two X rows, one Z row) of the state psi = (1, i), Z = 2: every hypothesis of the
+   NLL theorems holds, and every Born probability is 1/2 *)
+Definition psi_ex (v : bits) : Cx := match v with true :: _ => (0, 1) | _ => (1, 0) end.
+
+Lemma born_X_example s : born [] (PureTab psi_ex) 2 [LX] [s] = / 2.
 Proof.
-  cbv zeta. intros bs [<-|[<-|[]]]; unfold sample_ok; cbn [fst snd length]; (split; [reflexivity|split]).
-  - intros _. unfold diag_prob, cn2; cbn. lra.
-  - rewrite born_allZ by reflexivity. unfold diag_prob, cn2; cbn [fst snd]. apply in_range_mid. lra.
-  - intros _. unfold diag_prob, cn2; cbn. lra.
-  - rewrite born_allZ by reflexivity. unfold diag_prob, cn2; cbn [fst snd]. apply in_range_mid. lra.
+  assert (Hs : sqrt (1 + 1) * sqrt (1 + 1) = 1 + 1) by (apply sqrt_sqrt; lra).
+  assert (Hp : 0 < sqrt (1 + 1)) by (apply sqrt_lt_R0; lra).
+  destruct s; unfold born, inner_prod1, cn2; cbn -[sqrt]; unfold inv_sqrt2, two; cbn -[sqrt]; field_simplify; try lra;
+    replace (sqrt (1 + 1) ^ 2) with (sqrt (1 + 1) * sqrt (1 + 1)) by ring; rewrite Hs; lra.
+Qed.
+
+Example nll_hyps_satisfiable :
+  let st := PureTab psi_ex in let pr := fun _ : bits => 1 in
+  let samples := [([LX], [false]); ([LZ], [true]); ([LX], [true])] in
+  (forall bs, In bs samples -> sample_ok [] st pr 2 bs) /\
+  (forall bs, In bs samples -> count_basis [[LZ]; [LX]] (fst bs) = 1%nat).
+Proof.
+  cbv zeta. split.
+  - intros bs [<-|[<-|[<-|[]]]]; unfold sample_ok; cbn [fst snd length]; (split; [reflexivity|split]).
+    + intros H; discriminate H.
+    + rewrite born_X_example. apply in_range_mid; lra.
+    + intros _. unfold diag_prob, cn2; cbn. lra.
+    + rewrite born_allZ by reflexivity. unfold diag_prob, cn2; cbn [fst snd psi_ex]. apply in_range_mid. lra.
+    + intros H; discriminate H.
+    + rewrite born_X_example. apply in_range_mid; lra.
+  - intros bs [<-|[<-|[<-|[]]]]; reflexivity.
 Qed.
